@@ -59,10 +59,99 @@ CLAIMED = {
     "C42": ("exploration", "set-model oracle over rendered cpulists + grid monitor for the fan-out helper",
             "Random CPU sets rendered with random grouping/order/duplicates/overlaps/whitespace/junk must parse to the sorted set; workers_for checked on a grid incl. 0 and usize::MAX.",
             "Junk tokens contain no digits or signs."),
+    "C04": ("exploration", "layout differential monitor: the same rows as one batch, many batches, Parquet in varied files/row groups/encodings, every fast-path gate on both sides",
+            "Statements whose shape selects a fast path (dense/morsel aggregation, streaming scan, runtime filters, dictionary strings, scalar-aggregate fast path) over the same rows in 5 physical layouts; every layout must give the memory single-batch answer, and a layout may not fail where another answers.",
+            "The single-batch memory answer is itself judged against DataFusion/SQLite by C01."),
+    "C08": ("exploration", "memory-limit differential monitor: unlimited run vs runs under 5 budgets down to 64 bytes with spill, + two concurrent spilling processes sharing one spill path",
+            "Sort / aggregate / join statements over tables that exceed the budget: the limited run must return the unlimited answer (tie-aware for ORDER BY ... LIMIT) or an explicit error, never other rows.",
+            "Spill is forced by budgets far below the data size; the evidence counts runs that actually spilled (MemoryPool::spilled > 0)."),
+    "C09": ("exploration", "distributed-vs-single-node differential over an in-process transport that executes fragments on a separate context",
+            "execute_any_distributed over 1-8 participants (self at any index, more nodes than splits) for statements of all merge shapes must equal ctx.sql on the initiator; a refusal is allowed.",
+            "The transport is in-process (the HTTP wire is C16/C35); peers read a byte-identical copy of the files."),
+    "C10": ("fault_enumeration", "fault-injecting FragmentTransport: every fault kind at every remote shard, every truncation offset of small real payloads, message-boundary cuts, byte flips, wrong-copy peers, pairs of faults",
+            "For scatter and gather shapes: transport error, HTTP error, empty body, truncation at every offset (all offsets for payloads <= 600 bytes, IPC message boundaries + sampled offsets beyond), flipped bytes, digest-mismatch peers, alone and in pairs: the query must fail, or return exactly the fault-free answer when the fault did not reach the payload.",
+            "Faults are injected at the FragmentTransport boundary (what HttpTransport returns); socket-level truncation is C16."),
+    "C13": ("exploration", "reassembly monitor: union of all shard scans vs the table, per node count and split size",
+            "For generated Parquet tables x node counts 1-9 x projections/filters/limits: every row appears in exactly one shard scan, shard scans concatenated equal the table scan (multiset), pruning inside a shard never drops a kept row.",
+            "Rows carry a unique id so loss and duplication are told apart."),
+    "C18": ("exploration", "bound-soundness monitor on generated Parquet files incl. chunks without statistics",
+            "Table statistics (row count, per-column min/max/null count) reported for generated files with hostile values (NaN, -0.0, extremes, all-NULL chunks, missing statistics, many row groups) must bound the decoded values.",
+            "Values are decoded with the parquet crate directly."),
+    "C21": ("exploration", "reference differential on aggregate strata across every aggregation path",
+            "COUNT/SUM/AVG/MIN/MAX/COUNT DISTINCT with and without GROUP BY, HAVING, empty and all-NULL inputs, every key/argument type, over memory and Parquet layouts and under a memory limit (scalar fast path, vectorized hash, morsel, dense, spilled).",
+            "DataFusion reference with SQLite arbitration; floating sums compared with a relative tolerance."),
+    "C22": ("exploration", "reference differential on join strata",
+            "INNER/LEFT/RIGHT/FULL/CROSS/SEMI/ANTI shapes, NULL and duplicate keys, mixed key types, composite keys, residual ON predicates, empty sides, build-side swaps, 2-3 way joins.",
+            "Join outputs are cardinality-bounded by the generator."),
+    "C23": ("exploration", "reference differential + decorrelated-vs-row-by-row differential",
+            "Scalar, IN/NOT IN, EXISTS/NOT EXISTS, quantified and correlated subqueries in SELECT/WHERE/HAVING, under OR, with NULLs on both sides; the production pipeline and the pipeline without decorrelation rules must both match the reference.",
+            "A scalar subquery returning more than one row is an error case and only counted."),
+    "C24": ("exploration", "executable multiset model of UNION/INTERSECT/EXCEPT [ALL] + reference differential",
+            "Set-operation chains over generated operands with NULLs and duplicates: the answer must equal the multiset definition computed by the harness from the operands' own answers.",
+            "Operand answers are the engine's own (their correctness is C01's)."),
+    "C25": ("exploration", "tie-aware ordering oracle against the reference's full answer",
+            "ORDER BY (multi-key, ASC/DESC, NULLS FIRST/LAST, expressions, ordinals) with LIMIT/OFFSET incl. 0 and beyond the end: the returned window must be a valid window of some order-consistent arrangement of the full answer.",
+            "Ties may be broken any way; the oracle accepts every consistent arrangement."),
+    "C26": ("exploration", "reference differential on window strata",
+            "Ranking, offset, value and aggregate window functions over partitions, orderings and ROWS/RANGE frames with NULLs and ties.",
+            "Order-sensitive functions get a unique tiebreak key; peer-invariant ones are tested with ties."),
+    "C27": ("exploration", "per-grouping-set GROUP BY model",
+            "GROUPING SETS / ROLLUP / CUBE over <= 3 columns: the answer must equal the UNION ALL of one plain GROUP BY per set (NULL-padded), computed by the engine's own plain GROUP BY and cross-checked with the reference.",
+            "GROUPING() values are checked where the engine accepts the function."),
+    "C28": ("exploration", "CTE inlining model",
+            "WITH statements (one CTE referenced once/twice, chains, shadowing of table names, nested WITH, CTE in subquery) must equal the statement with every reference replaced by its body as a derived table.",
+            "The inlined statement is answered by the engine and by the reference."),
+    "C39": ("exploration", "determinism + referential monitor over generated TPC-H data",
+            "generate twice (and per table) at several scale factors: byte-identical batches; row counts follow the scale; every foreign key resolves; value domains hold.",
+            "Primary-key uniqueness is observed, not demanded."),
+    "C44": ("exploration", "the VALUES list itself as the model",
+            "VALUES lists (1-40 rows x 1-6 columns, all literal types, NULLs in any position incl. the first row, expressions, aliases, in FROM / UNION / IN) must produce exactly their rows with the declared names.",
+            "Type unification across rows is checked against the reference."),
+    "C45": ("exploration", "gathered-context differential + distributed-vs-single-node differential for gather shapes",
+            "For statements that take the gather path: a context holding only the columns plan_gather lists must bind and answer like the full context, and the distributed answer must equal ctx.sql.",
+            "Column lists come from the engine's own plan_gather; their sufficiency is what is observed."),
     "C43": ("exploration", "ordering-model oracle on kernel distances + rule-removed differential + poisoned-index provider",
             "ORDER BY <distance> LIMIT k [OFFSET m] in the default exact mode must return the k nearest rows (tie-aware) and equal the plan without VectorSearchPushdown; a provider whose scan_knn returns wrong rows must never be consulted.",
             "Distances used for ranking are the engine kernel's own (their accuracy is C38's business)."),
 }
+
+
+# built late in the session; enabled here once their quick run is clean on the unchanged tree
+LATE = {
+    "C17": ("exploration", "model writer + snapshot-membership oracle",
+            "Iceberg tables written from random histories (appends, removals, manifest and metadata rewrites; v1/v2; both discovery styles; every accepted URI form): opening at the current and at every listed snapshot must return exactly the rows of the model's live files; delete files, non-Parquet files, remote URIs, unknown and empty snapshots must be refused.",
+            "Histories are spec-shaped (one manifest tracks a file per snapshot)."),
+    "C19": ("exploration", "write/query/rewrite/query histories in per-cache-mode worker processes against a content model",
+            "Rewrites in place / by rename / remove-create with natural, same-second, preserved, older and newer timestamps and equal or other length, QE_IPC_CACHE=0/unset/1, answers in the registered context and a fresh one must reflect the new content.",
+            "A rewrite follows the previous read by >= 15 ms."),
+    "C20": ("exploration", "multi-process build race with a directory poller + cross-mode differential",
+            "Sidecar-free answers vs 1-8 concurrent builder processes and readers (seeded delays at publication and open) vs reuse; a published sidecar directory must always be complete.",
+            "Process interleavings are sampled."),
+    "C29": ("exploration", "crash/hang monitor over worker processes with progress records",
+            "Random bytes, token soup, mutated grammar statements, 20 deep-nesting forms to depth 20000, 16 huge-literal forms to 1 MB, 150 hostile templates: every input ends in Ok or Err; panic, process death or a confirmed hang is a violation.",
+            "Hang = no answer in 40 s over tiny tables, confirmed alone at 240 s."),
+    "C30": ("exploration", "schema agreement monitor",
+            "QueryResult.schema vs every batch schema vs physical_plan(sql).schema() (the source of Flight's schema answers) for every executed statement of the mixed corpus.",
+            "The Flight wire encoding of the schema is C34's."),
+    "C32": ("exploration", "plan-structure monitor + answer differential on generated connected join graphs",
+            "2-7 relations, chains/stars/trees/cycles/dense, composite keys, self-joins, four SQL forms, with and without statistics: no Cross join and no keyless inner join in the pipeline's plan or JoinReorder's alone, scans preserved, answers equal the reference.",
+            "A conjunct missing textually counts only when the answer changes."),
+    "C34": ("exploration", "two-door differential on in-process nodes (HTTP vs Arrow Flight)",
+            "GetFlightInfo + DoGet vs POST /sql for statements of all shapes, > 4096 rows, empty results and errors, modes auto/force/off, 1-3 nodes: same schema, rows, decision, trailer row count; malformed tickets refused.",
+            "Rust Flight client (arrow-flight/tonic) only."),
+    "C35": ("exploration", "front-door monitor on in-process nodes",
+            "503 before/after-failed load on /sql and /fragment; Arrow/JSON/CSV bodies decode to ctx.sql's rows; auto mode local with a reason for single member / non-mergeable shapes; no 200 after a distributed failure (differing peer copy, dead peer still listed).",
+            "Mergeability of a shape is taken from the generator, not from the engine's planner."),
+    "C36": ("exploration", "offline checker: observations log judged by a python3-stdlib model of the documented Trino values",
+            "About 150 call shapes of 120 functions x hostile argument pools with NULLs through a column path and a literal path.",
+            "The model declines where documentation/stdlib cannot decide; unmodelled functions are listed."),
+    "C40": ("exploration", "round-trip monitor: RFC 4180 reader and serde_json over the shell formatter's output",
+            "Result sets with hostile strings (separators, quotes, CR/LF, control, non-ASCII), NULLs, numbers, hostile column names in CSV and JSON mode must parse back to every cell.",
+            "Formatter compiled from /repo/src/cli/output.rs into the harness."),
+}
+ENABLED_LATE = []
+for _k in ENABLED_LATE:
+    CLAIMED[_k] = LATE[_k]
 
 NOT_YET = "monitor not built yet in this session (design in DESIGN.md section 3); will be claimed once its check exists"
 
